@@ -1,6 +1,7 @@
 import Rpft.Drv.Json
 import Rpft.Campaign
-namespace Rpft.Drv
+namespace Rpft.Drv.CampaignD
+open Rpft.Drv
 open Lean Rpft Rpft.Campaign
 
 def uidJ : Uid → Json
@@ -124,4 +125,4 @@ def handleCampaign (op : String) (j : Json) : Except String Json := do
       | none => pure Json.null
   | _ => throw s!"unknown op {op}"
 
-end Rpft.Drv
+end Rpft.Drv.CampaignD
